@@ -43,13 +43,13 @@ DEF = 4294967295
 
 def gen(rng):
     ops = []
-    N = rng.choice([3, 5, 8])
+    N = rng.choice([3, 5, 8, 3, 5, 8, 20, 70])       # also tables that grow several times (ids up to 70)
     for _ in range(rng.randint(5, 40)):
         k = rng.random()
         i = rng.randint(0, N)
-        args = [rng.randint(0, max(i - 1, 0)) for _ in range(rng.choice([0, 1, 2, 3]))] if i > 0 else []
+        args = [rng.randint(0, max(i - 1, 0)) for _ in range(rng.choice([0, 1, 2, 3, 3, 7]))] if i > 0 else []
         if k < 0.12: ops.append("tn:%d:%d" % (i, rng.choice([0, -1, 5, 2**31 - 1, -2**31, rng.randint(-100, 100)])))
-        elif k < 0.22: ops.append("ts:%d:%s" % (i, hexs(bytes(rng.choice(b"abc+-*x \xc3\xa4") for _ in range(rng.choice([0, 1, 3, 9]))))))
+        elif k < 0.22: ops.append("ts:%d:%s" % (i, hexs(bytes(rng.choice(b"abc+-*x \xc3\xa4") for _ in range(rng.choice([0, 1, 3, 9, 40]))))))
         elif k < 0.32:
             if i == 0: continue          # a function term refers to a smaller id as its symbol (terms are acyclic)
             ops.append("tf:%d:%d:%s" % (i, rng.randint(0, i - 1), lst(args)))
